@@ -39,6 +39,14 @@ func genC20(tier string, seed int64) []Case {
 		nb, per, causes, idn = 40, 25000, 1500, 3000
 	}
 	add(c20Desc{Kind: "errtype", N: 0, Salt: "enumerated"})
+	// the same sanitisation where an error type enters through the restore hook (both endpoints a runtime may use),
+	// on the real stack: scenarios borrowed from C18, the clause evaluated here
+	for _, order := range []string{"P,R,E", "P,R,I"} {
+		for _, et := range []string{"Runtime.HookFailed", "Function.Oops", "bogus type", "xRuntime.Fooy", "", "Runtime.Hook, secret=hunter2", "Function.Err.Sub", "Runtime.Ok\",\"injected\":\"yes", "Sandbox.Timeout", "Runtime.lowercase<script>"} {
+			d18 := c18Desc{Order: order, HookMs: 300, EType: et, As: "C20"}
+			cases = append(cases, Case{ID: fmt.Sprintf("C20/restore-error-type/%s/%q", order, et), Class: "restore-errtype", Desc: d18, Timeout: 60 * time.Second, Run: func(c *Ctx) { runC18(c, d18) }})
+		}
+	}
 	for i := 0; i < nb; i++ {
 		add(c20Desc{Kind: "errtype", N: per, Salt: fmt.Sprintf("rand%d-%d", seed, i)})
 	}
